@@ -8,7 +8,7 @@ EXHAUSTIVE = True
 CHUNK = 1
 CASE_TIMEOUT = 900
 RULE = ("differential exploration, every pair run as two fresh assemblies of the real code: (1) '.repeat n { body }' vs the body written n "
-        "times for all body sequences up to the depth bound over a 34-statement body alphabet that contains every operand form and "
+        "times for all body sequences up to the depth bound over a 37-statement body alphabet that contains every operand form and "
         "expression shape ('.' under / % * >> << &, indexed operands with symbolic and compound offsets, PC-relative and immediate '.', "
         "branches to .+-n, .even/.odd/.align, .blkb and .repeat whose size or count depends on '.', nested repeats to depth 3), n in "
         "0..4 and 8 (40 for single statements), count written as a constant and as a later-defined symbol, loop start at even and odd "
@@ -24,7 +24,7 @@ BODY = [
     "nop", "mov #1, r1", "mov @#2, @#4", ".byte 1", ".byte 1, 2, 3", ".ascii \"ab\"", ".blkb 3",
     ".even", ".odd", ".align 4",
     ".word .", ".word ./2", ".word .%7", ".word <.*.>&177777", ".word .>>1", ".word .<<1&177777", ".word <.-bse>/2", ".word .+x", ".word x*2",
-    ".byte .&377",
+    ".byte .&377", ".rad50 /AB/< <.-bse>&7 >", ".ascii <.&177>/z/", ".asciz /q/<<.-bse>&77>",
     "mov 2+x(r0), r1", "mov -x(r0), r1", "clr @2+x(r0)", "mov x(r2), 2+x(r3)", "mov #., r1", "mov ., r1", "jmp @#.+2", "mov #<.-bse>/2, r1",
     "br .+4", "br .-2", "sob r1, .",
     ".blkb .&3", ".repeat .&3 { .byte 5 }", ".repeat 2 { .byte 1\n .even }", ".repeat 2 { .repeat 2 { .word . } }",
@@ -42,7 +42,7 @@ FILES6 = [
 
 
 def bound(tier):
-    return "repeat bodies of <= %d statements (34-statement alphabet) x n in %s x 2 count spellings x 2 start parities x 3 link regimes; 258 file tuples; insert lengths %s; .end/.once families complete" % (
+    return "repeat bodies of <= %d statements (37-statement alphabet) x n in %s x 2 count spellings x 2 start parities x 3 link regimes; 258 file tuples; insert lengths %s; .end/.once families complete" % (
         3 if tier == "thorough" else 2, NS, "0..300" if tier == "thorough" else "0..40,255,256,300")
 
 
@@ -102,6 +102,7 @@ def lazy_weight(body_idx):
     for i in body_idx:
         t = BODY[i]
         wgt += t.count(".even") * (2 if t.startswith(".repeat 2") else 1) + t.count(".odd") + t.count(".align") + (1 if ".&3" in t else 0)
+        wgt += 1 if (t.startswith((".ascii <", ".asciz /q/<", ".rad50 /AB/<"))) else 0   # unsized and address-dependent as well
     return wgt
 
 
